@@ -1,3 +1,3 @@
-import Driver.Loop
-/-! Driver for group `schema`: replace `[]` by this group's handlers. -/
-def main : IO Unit := TF.Driver.run []
+import Driver.Schema
+/-! Driver for group `schema` (C19, C20). -/
+def main : IO Unit := TF.Driver.run [TF.Driver.handleSchema]
